@@ -571,8 +571,11 @@ pub fn full_decaps(
         Encapsulations::HEncs(encs) => {
             for (E, F) in encs {
                 for (right, secret_set) in msk.secrets.iter() {
-                    for (is_activated, secret) in secret_set {
-                        if *is_activated {
+                    // The activation status of a right is held by its most
+                    // recent secret.
+                    let is_activated = secret_set.front().is_some_and(|(flag, _)| *flag);
+                    for (_, secret) in secret_set {
+                        if is_activated {
                             if let RightSecretKey::Hybridized { sk, dk } = secret {
                                 let mut K1 = ElGamal::session_key(sk, &A)?;
                                 let K2 = MlKem::dec(dk, E)?;
@@ -586,8 +589,11 @@ pub fn full_decaps(
         Encapsulations::CEncs(encs) => {
             for F in encs {
                 for (right, secret_set) in msk.secrets.iter() {
-                    for (is_activated, secret) in secret_set {
-                        if *is_activated {
+                    // The activation status of a right is held by its most
+                    // recent secret.
+                    let is_activated = secret_set.front().is_some_and(|(flag, _)| *flag);
+                    for (_, secret) in secret_set {
+                        if is_activated {
                             let sk = match secret {
                                 RightSecretKey::Hybridized { sk, .. } => sk,
                                 RightSecretKey::Classic { sk } => sk,
